@@ -53,6 +53,7 @@ int main(int argc, char **argv) {
                 int bits[3] = {row & 1, (row >> 1) & 1, (row >> 2) & 1}; int kinds[3] = {kc % nk, (kc / nk) % nk, (kc / nk / nk) % nk};
                 if (pass != 2 && pass != -1 && nk >= 3 && g.arity >= 2 && kinds[1] == 2 && kinds[0] == 0) kinds[1] = 5;   // the (F,P-) cell of two-input gates is replaced by (F,Z); P- stays covered by (P+,P-),(P-,P-)
                 std::string key = fmt("%slambda=%d/seed=%d/%s/row=%d/kinds=%s,%s,%s", pass == 2 ? "again/" : pass == -1 ? "first/" : "", lam, seed, g.name, row, g.arity > 0 ? KIND[kinds[0]] : "-", g.arity > 1 ? KIND[kinds[1]] : "-", g.arity > 2 ? KIND[kinds[2]] : "-");
+                if (opt("zonly") == "1" && !(g.arity >= 2 && kinds[1] == 5) && !(g.arity < 2 && kc == 0)) continue;   // slow builds in the quick tier: the rounded-phase-0 cases (and the unary gates) only
                 if (!take(key)) continue; if (deadline()) goto done;
                 ensure(); current(key);
                 { uint32_t sd[2] = {(uint32_t)fnv(key.data(), key.size()), (uint32_t)S().seed}; tfhe_random_generator_setSeed(sd, 2); }
